@@ -386,7 +386,12 @@ func raceStock(h *raceH, p *prng, rounds int, dir string, withEnc bool) {
 		ch := make(chan *eventlogger.Event, 64)
 		cs, _ := channel.NewChannelSink(ch, 50*time.Millisecond)
 		go func() {
-			for range ch {
+			// the consumer reads what it is handed, while other pipelines may still be formatting the event
+			for ev := range ch {
+				if ev != nil {
+					ev.Format(string(eventlogger.JSONFormat))
+					ev.Format(string(cloudevents.FormatJSON))
+				}
 			}
 		}()
 		reg := map[string]eventlogger.Node{
@@ -590,7 +595,12 @@ func raceGated(h *raceH, p *prng, rounds int) {
 		// looking a group up and storing an event in it is stretched, under its lock or not
 		// ... and so does the Broker the composites are sent through (a slow sink): whatever the filter does
 		// around Send is stretched too
-		f := &gated.Filter{Broker: slowSender{time.Duration(p.intn(150)) * time.Microsecond}, Expiration: time.Hour, NowFunc: func() time.Time {
+		// every other round the groups expire while the senders are at it: sweeps of several Process calls overlap
+		exp := time.Hour
+		if r%2 == 1 {
+			exp = time.Duration(100+p.intn(400)) * time.Microsecond
+		}
+		f := &gated.Filter{Broker: slowSender{time.Duration(p.intn(150)) * time.Microsecond}, Expiration: exp, NowFunc: func() time.Time {
 			runtime.Gosched()
 			time.Sleep(5 * time.Microsecond)
 			return time.Now()
